@@ -62,6 +62,10 @@ CHECKS = {
         technique='TLC model checking of the reply rule / fault / request over an alphabet around the accepted form + TLC-judged conformance with the transport stubbed below the requests API',
         text='MC: spec/MC_Http.tla - every reply body up to MaxBody characters x faults x six nesting contexts: strip-and-compare = the sentence, faults never decide, short-circuit sends nothing, the request names the enforced policy. Conformance: real enforce calls with requests.adapters.HTTPAdapter.send replaced; reply bodies, status codes, content types, timeout/connection/TLS faults, nested and opaque target values; the decoded request and the decision are judged by spec/Conf_Eval.tla (HttpOK).',
         ref='DESIGN.md 4/C16'),
+    'C13': dict(
+        technique='TLC model checking of the two validation walkers vs an independent graph analysis on all small rule graphs + TLC-judged conformance of real check_rules / validator runs',
+        text='MC: spec/MC_Validate.tla - every rule graph over 3 (thorough also 4) names with references at top level, under not, under and/or and in nested groups: the walkers as coded (per-branch copies of the visited set) report exactly the graphs with an undefined or cycle-reaching reference; clean graphs evaluate within reference depth |names|. Conformance: the enumerated graphs and random graphs on up to 6 names on real Enforcers (check_rules, raise_on_violation, generator._validate_policy with missing file / unknown name / unparseable rule), clean graphs evaluated under a recursion watchdog; judged by spec/Conf_Validate.tla against the independent analysis.',
+        ref='DESIGN.md 4/C13'),
     'C14': dict(
         technique='TLC model checking of totality of the outcome alphabet + TLC-judged conformance with hostile leaf texts (an undocumented exception has no spec action)',
         text='MC: spec/MC_Leaves.tla and spec/MC_Scope.tla - every path into every credential shape has a defined outcome; Enforce raises documented classes only. Conformance: random acyclic rule sets with leaves from a hostile alphabet against credentials/targets holding every JSON type at every position; spec/Conf_Eval.tla rejects any trace whose outcome is an exception outside the documented set.',
@@ -70,6 +74,24 @@ CHECKS = {
         technique='TLC model checking (RoundTrip) + TLC-judged conformance of real printer output re-parsed by the specification grammar',
         text='MC: for every accepted sequence up to MaxLen, Print(result) re-parses to the same print and table. Conformance: str(parse_rule(x)) of exhaustive and random rules with leaves of every built-in kind, list rules, whole rule sets through str(Rules)/Rules.load, RuleDefault.__eq__ pairs; the printed text is tokenised independently and TLC parses it with the specification grammar and compares with the decisions the code gives the original rule.',
         ref='DESIGN.md 4/C15'),
+    'C17': dict(
+        technique='TLC model checking of the sample-generator document model + TLC-judged conformance of real samples classified line by line',
+        text='MC: spec/MC_Sample.tla - generator model (per-default block, three-state description formatter, deprecation blocks) over every kind of default x description/reason shape x operations x scope x exclude-deprecated: no live line, every default stated exactly once. Conformance: real _generate_sample output for hostile descriptions/reasons is classified line by line, loaded with an independent YAML parser as written and with rule lines uncommented, plus the JSON sample; judged by spec/Conf_Sample.tla.',
+        ref='DESIGN.md 4/C17',
+        note='thin spot: character-level behaviour of textwrap and of the YAML scanner is below the abstraction and exercised only through the real code; TLC decides document structure and the name->check mapping. Trusted: ' + TB),
+    'C18': dict(
+        technique='TLC model checking of the tools as maps on abstract policy files composed with the loader layering + TLC-judged conformance of real tool runs',
+        text='MC: spec/MC_Tools.tla - every main policy file over registered/successor/deprecated/unknown names x {absent, equal to default, different, alias} (+ a directory file) x four default sets: Convert/Upgrade/Generate preserve decisions of surviving names, what Redundant reports is deletable; negative control: the upgrade algorithm as originally shipped is caught on alias files (this found a genuine defect, fixed). Conformance: the enumerated files through the real tools with rule values spelled as strings, textual variants, list-of-lists and with embedded quotes; Enforcers before/after compared; judged by spec/Conf_Tools.tla.',
+        ref='DESIGN.md 4/C18'),
+    'C19': dict(
+        technique='TLC-judged conformance of real oslopolicy-checker runs: TLC derives credentials/target from the token and target files and computes the expected verdict sequence; evaluation semantics model-checked in MC_Alias',
+        text='spec/Checker.tla defines the derivation of credentials and target from the token / target files, selection (names with a colon or the requested rule), order and the verdict (PolicyEval evaluation with default rule "default"). Real shell.tool runs over generated policy files, the three sample tokens and generated tokens, is_admin, nested target files, requested rules; stdout parsed into a verdict sequence and judged by spec/Conf_Checker.tla; a real Enforcer.enforce on the same inputs serves as second witness.',
+        ref='DESIGN.md 4/C19'),
+    'C20': dict(
+        technique='TLC model checking of all interleavings of two threads at write granularity (as implemented: counterexamples = known findings; with a lock: holds) + deterministic schedule enumeration on the real code validated by TLC',
+        text='MC: spec/MC_LoaderMT.tla - two threads run enforce (load steps at the granularity of every write to the shared rule store, file-rule record and caches; look-up; evaluation) around one edit in every interleaving, five scenarios: with Locked=TRUE AtomicDecision and SettledCorrect hold, as implemented TLC finds the counterexamples. Conformance: every schedule with one or two context switches at every source-line boundary of the reloading call (and of a call started before the edit) is executed on the real code with real threads handed over by events; spec/Conf_LoaderMT.tla computes old and new policy from the loader specification and checks each decision and the settled state; wrong decisions are keyed by scenario/shape/projected rule store so that the windows of the unchanged tree are listed in known_findings.json and any other window is reported.',
+        ref='DESIGN.md 4/C20',
+        note='preemption at source-line granularity (the quantifier of C20); CPython can also switch inside a line. Trusted: ' + TB),
 }
 
 NOT_YET = 'check not built yet in this round (work in progress; see DESIGN.md section 4 for the plan)'
